@@ -13,6 +13,8 @@ FLAVORS = {
     'static': ['-DUSE_MEMORY_ALLOCATION_FREE=0'],
     'noinfo': ['-DUSE_DEVICE_DEPENDENT_ERROR_INFORMATION=0'],
     'dtostre': ['-DUSE_CUSTOM_DTOSTRE=1'],
+    'uchar': ['-funsigned-char'],          # plain char unsigned, as on ARM and PowerPC targets
+    'strict': ['-std=c99', '-DVERIF_STRICT'],   # strict ISO C: the library uses its own strncasecmp / strnlen / strndup
 }
 CFLAGS = ['-O1', '-g', '-fsanitize=address,undefined', '-fno-sanitize-recover=all', '-fno-omit-frame-pointer',
           '-DSCPI_PARSER_VERIF', '-w']
@@ -231,7 +233,7 @@ def ensure_impl(flavor):
     for old in glob.glob(os.path.join(BUILD, 'impl_%s_*' % flavor)):
         os.remove(old)
     cmd = ['gcc'] + CFLAGS + FLAVORS[flavor] + ['-I', os.path.join(REPO, 'libscpi/inc'), '-I', os.path.join(REPO, 'libscpi/src'), src, '-lm', '-o', exe]
-    if flavor in ('default', 'dtostre'):
+    if flavor in ('default', 'dtostre', 'uchar', 'strict'):
         cmd.insert(-4, '-Wl,--wrap=strndup')
     rc, out, err, _ = sh(cmd, 300)
     if rc != 0:
